@@ -426,4 +426,54 @@ theorem gen_find_handler_is_model (env : Env) (cls : Text) : ∀ (hs : List (Tex
       rw [ih]
       rfl
 
+private theorem pushedGen_eq' (env : Env) (fuel : Nat) (fr : Frame) (body : List Blk) (st : St) :
+    GenRender.pushedGen env fuel fr body 1 st = framed env fuel fr body st := by
+  cases fuel with
+  | zero => rfl
+  | succ f =>
+    cases f with
+    | zero => simp [GenRender.pushedGen, framed, withFrame, joinRes]
+    | succ g => simp [GenRender.pushedGen, framed, withFrame]
+
+/-- **dtml-try with handlers is `Try.render_try_except` of the source** (regenerated on every run: the body, `except
+DTReturn: raise`, the handler `find_handler` selects rendered on top of the error namespace - whose names are read off the
+`namespace(md, error_type=…, error_value=…, error_tb=…)` call - and popped in `finally`, the else block joined to the
+body's output) -/
+theorem gen_try_except_is_model (env : Env) (fuel : Nat) (body : List Blk) (handlers : List (Text × List Blk))
+    (els : Option (List Blk)) (st : St) :
+    GenRender.tryExceptGen env fuel body handlers els st = renderBlk env (fuel + 1) (.try_ body handlers els) st := by
+  simp only [GenRender.tryExceptGen, renderBlk, gen_find_handler_is_model, pushedGen_eq']
+  cases renderJoined env fuel body st with
+  | mk r st1 =>
+    cases r with
+    | ok p =>
+      cases els with
+      | none => rfl
+      | some e =>
+        simp only
+        cases renderJoined env fuel e st1 with
+        | mk r2 st2 => cases r2 <;> rfl
+    | raise ex =>
+      simp only
+      cases findHandler env handlers ex.cls <;> rfl
+    | ret v => rfl
+    | oom => rfl
+
+/-- **dtml-try with a finally block is `Try.render_try_finally` of the source** -/
+theorem gen_try_finally_is_model (env : Env) (fuel : Nat) (body fin : List Blk) (st : St) :
+    GenRender.tryFinallyGen env fuel body fin st = renderBlk env (fuel + 1) (.tryFin body fin) st := by
+  simp only [GenRender.tryFinallyGen, renderBlk]
+  cases renderJoined env fuel body st with
+  | mk r st1 =>
+    cases r <;> simp only <;>
+      (cases renderJoined env fuel fin st1 with
+       | mk r2 st2 => cases r2 <;> rfl)
+
+/-- **dtml-return is `ReturnTag.render` of the source** -/
+theorem gen_return_is_model (env : Env) (fuel : Nat) (src : Src) (st : St) :
+    GenRender.returnGen env fuel src st = renderBlk env (fuel + 1) (.ret src) st := by
+  simp only [GenRender.returnGen, renderBlk]
+  cases evalSrc env fuel src st with
+  | mk r st' => cases r <;> rfl
+
 end DTML.Props.C14
